@@ -27,6 +27,7 @@ type SpecEnv struct {
 	pkg   *types.Package
 	at    *ssa.BasicBlock // program point for local name resolution
 	inOld bool
+	inTrigger bool // evaluating a quantifier pattern: no boolean structure
 	tolerant bool
 	atLoopHeader bool // the program point is a loop header: its phis are the loop variables
 	paramsAtEntry bool
@@ -674,7 +675,7 @@ func (env *SpecEnv) index(base, idx SVal) (SVal, error) {
 		switch bt := base.Typ.Underlying().(type) {
 		case *types.Slice:
 			h, es := u.elemHeap(bt.Elem())
-			t := sel(sel(ft.heapTerm(env.state(), h), sx("sbase", base.T.S)), sx("+", sx("soff", base.T.S), idx.T.S))
+			t := sel(sel(ft.heapTerm(env.state(), h), sx("sbase", base.T.S)), sx("ix", base.T.S, idx.T.S))
 			env.noteLoad(Term{t, es})
 			return SVal{T: Term{t, es}, Typ: bt.Elem()}, nil
 		case *types.Map:
@@ -685,6 +686,10 @@ func (env *SpecEnv) index(base, idx SVal) (SVal, error) {
 			u.declFun("strbyte", "(declare-fun strbyte (Str Int) Int)")
 			return SVal{T: Term{sx("strbyte", base.T.S, idx.T.S), SInt}, Typ: types.Typ[types.Byte]}, nil
 		}
+	}
+	if base.T.Sort == SStr {
+		u.declFun("strbyte", "(declare-fun strbyte (Str Int) Int)")
+		return SVal{T: Term{sx("strbyte", base.T.S, idx.T.S), SInt}, Typ: types.Typ[types.Byte]}, nil
 	}
 	return SVal{}, fmt.Errorf("cannot index value of sort %s", base.T.Sort)
 }
@@ -761,6 +766,9 @@ func (env *SpecEnv) binary(x EBinary) (SVal, error) {
 		if m.Typ != nil && m.T.Sort == SRef {
 			if mt, ok := m.Typ.Underlying().(*types.Map); ok {
 				dom, _, _, _ := ft.e.u.mapHeaps(mt)
+				if env.inTrigger {
+					return SVal{T: Term{sel(sel(ft.heapTerm(env.state(), dom), m.T.S), a.T.S), SBool}}, nil
+				}
 				return SVal{T: Term{and(not(eq(m.T.S, "null")), sel(sel(ft.heapTerm(env.state(), dom), m.T.S), a.T.S)), SBool}}, nil
 			}
 		}
@@ -835,10 +843,17 @@ func (env *SpecEnv) quant(x EQuant) (SVal, error) {
 	var binders []string
 	for _, v := range x.Vars {
 		t, err := env.resolveType(v.Type)
+		var s Sort
 		if err != nil {
-			return SVal{}, err
+			// ghost sorts (set[T], map[K]V) have no Go type
+			var serr error
+			if s, serr = env.resolveSpecSort(v.Type); serr != nil {
+				return SVal{}, err
+			}
+			t = nil
+		} else {
+			s = ft.e.u.sortOf(t)
 		}
-		s := ft.e.u.sortOf(t)
 		env.qn++
 		name := fmt.Sprintf("q$%s", v.Name)
 		if old, ok := env.vars[v.Name]; ok {
@@ -854,7 +869,9 @@ func (env *SpecEnv) quant(x EQuant) (SVal, error) {
 	body, err := env.evalBool(x.Body)
 	var trigs []string
 	for _, tr := range x.Trig {
+		env.inTrigger = true
 		tv, terr := env.eval(tr)
+		env.inTrigger = false
 		if terr != nil {
 			err = terr
 			break
@@ -927,6 +944,15 @@ func (env *SpecEnv) call(x ECall) (SVal, error) {
 		return SVal{T: Term{eq(args[0].T.S, "null"), SBool}}, nil
 	case "dyntype":
 		return SVal{T: Term{sx("dyntype", args[0].T.S), SInt}}, nil
+	case "sameArray":
+		// sameArray(s, t): both slices are views of one backing array
+		if err := need(2); err != nil {
+			return SVal{}, err
+		}
+		if args[0].T.Sort != SSlice || args[1].T.Sort != SSlice {
+			return SVal{}, fmt.Errorf("sameArray() needs two slices")
+		}
+		return SVal{T: Term{eq(sx("sbase", args[0].T.S), sx("sbase", args[1].T.S)), SBool}}, nil
 	case "cast":
 		// cast("T", x): x viewed as a value of Go type T (interface value holding a *T)
 		if len(x.Args) == 2 {
@@ -996,6 +1022,36 @@ func (env *SpecEnv) call(x ECall) (SVal, error) {
 		return SVal{T: env.ft.bytesStr(env.state(), args[0].T), Typ: types.Typ[types.String]}, nil
 	}
 	// spec function
+	if sf, ok := e.cs.Specs[x.Fn]; ok && sf.Macro {
+		if len(args) != len(sf.Params) || sf.Body == nil {
+			return SVal{}, fmt.Errorf("%s: macro needs a body and %d arguments", x.Fn, len(sf.Params))
+		}
+		saved := map[string]*SVal{}
+		for i, p := range sf.Params {
+			if old, ok := env.vars[p.Name]; ok {
+				o := old
+				saved[p.Name] = &o
+			} else {
+				saved[p.Name] = nil
+			}
+			a := args[i]
+			if a.Typ == nil {
+				if t, err := env.resolveType(p.Type); err == nil {
+					a.Typ = t
+				}
+			}
+			env.vars[p.Name] = a
+		}
+		r, err := env.eval(sf.Body)
+		for k, v := range saved {
+			if v == nil {
+				delete(env.vars, k)
+			} else {
+				env.vars[k] = *v
+			}
+		}
+		return r, err
+	}
 	if sf, ok := e.cs.Specs[x.Fn]; ok {
 		name, rs, err := e.declareSpecFunc(sf, env)
 		if err != nil {
